@@ -65,6 +65,7 @@ func (e *ParserData) checkStackOverflow() bool {
 			e.code = newCode
 		} else {
 			// e.Error = errors.New("E1:指令虚拟机栈溢出，请不要发送过长的指令")
+			verifCodeDrop()
 			return true
 		}
 	}
@@ -76,6 +77,7 @@ func (e *ParserData) WriteCode(T CodeType, value any) {
 		return
 	}
 
+	verifEmit(e, T)
 	c := &e.code[e.codeIndex]
 	c.T = T
 	c.Value = value
